@@ -4,6 +4,8 @@ use crate::gen::mixed_radix;
 pub const TOKENS: &[&str] = &[
     "1", "x", "'s'", "','", "':'", "true", "(", ")", "[", "]", "{", "}", ",", ";", "?", ":", "!", "-", "*", "+", "<",
     "&&", "=", "+=", "in", "++", "not", "AND",
+    // lexical errors as tokens: a quote that opens an unterminated string, a malformed number
+    "'", "1e5",
 ];
 
 /// sub-alphabet that keeps every delimiter and separator
